@@ -370,6 +370,13 @@ pub fn main(args: &[String]) -> i32 {
             };
             nproofs += 1;
             roundtrip_generic::<Proof>("proof", &p, &mut fails, &mut count);
+            // every value of the optional GKR component: absent, present and empty, present with 1 / 3 / 300 bytes (Option<Vec<u8>>:
+            // "options ... empty and maximal collections, nested compositions")
+            for g in [None, Some(vec![]), Some(vec![0u8]), Some(vec![1u8, 2, 3]), Some(vec![0xa5u8; 300])] {
+                let mut q = p.clone();
+                q.gkr_proof = g;
+                roundtrip_generic::<Proof>("proof-gkr-variant", &q, &mut fails, &mut count);
+            }
             roundtrip_generic::<winter_air::proof::Context>("context", &p.context, &mut fails, &mut count);
             roundtrip_generic::<winter_air::proof::Commitments>("commitments", &p.commitments, &mut fails, &mut count);
             roundtrip_generic::<winter_air::proof::Queries>("queries", &p.constraint_queries, &mut fails, &mut count);
